@@ -14,6 +14,7 @@
 -/
 import RbModel.Lemmas.Flags
 import RbModel.Lemmas.FlagCarry
+import RbModel.Lemmas.MatchSpanFlags
 
 namespace RbModel.Flags
 
@@ -403,5 +404,401 @@ example : ∃ (b : Buf) (i j : Nat) (x p : Info), i < b.len ∧ b.len ≤ b.info
   simp at h
   subst h
   decide
+
+end RbModel.Flags
+
+
+/-! ### CONCAT soundness at the call sites of the GSUB matching machinery: a rule that DECLINES flags what it inspected
+
+  Same instruments as in Props/C03.lean (`matchInputI`, `chainMatchI`: the model's matchers returning the glyphs they READ;
+  `C03_match_instrumented_same`: nothing new is trusted).  When a contextual rule / a ligature declines, the reason may be any
+  glyph it looked at — changing the text there can make the rule apply — so the span passed to `unsafe_to_concat*` has to cover
+  the reads "up to and including the glyph that made it fail".  Proved below, path by path, for what the code does:
+
+  * match_input fails in the skipping iterator (`why = iter`: mismatch, or the buffer / the syllable ended): `end_position` is
+    the iterator's `unsafe_to` = index of the stop glyph + 1, the span `[idx, end_position)` covers every read;
+  * match_input fails in the ligature-component rules (`why = ligComp`): `end_position` = index of the declining glyph + 1.
+    REPAIRED: on the pinned tree the two `return false` of that block did not write `*end_position`, the callers passed the
+    initial 0 and `unsafe_to_concat(idx, 0)` flagged nothing (chain rules: `max(0, idx)`, the empty span) — found here as the
+    one path whose span provably did not cover its reads, reproduced on the crate (redistribution sentence violated), repaired
+    by "fix: match_input left end_position unset when it declined in the ligature-component rules"; `C04_ligcomp_fail_flagged`
+    is the regression witness (HarfBuzz's match_input still has the two bare returns);
+  * the lookahead fails: `end_index` = the lookahead iterator's `unsafe_to`, `[idx, end_index)` covers input and lookahead reads;
+  * the backtrack fails: `unsafe_to_concat_from_outbuffer(start_index, end_index)`, `start_index` = the backward iterator's
+    `unsafe_from`, covers backtrack, input and lookahead reads;
+  * `count > MAX_CONTEXT_LENGTH`: nothing was read.
+
+  The flag statements need PRODUCE_UNSAFE_TO_CONCAT to be requested (otherwise `unsafe_to_concat` is a no-op by design). -/
+namespace RbModel.Flags
+open RbModel RbModel.Gsub
+
+/-- **a context rule that declined flagged everything it inspected — the common form of Context formats 1, 2 and 3**
+    ("match_input with `fn` over `n` further glyphs, then `contextFinish`").  When it returns `(c', false)`: match_input failed
+    with reads `R.reads`, the only effect is `unsafe_to_concat(idx, end_position)`; unless it failed at the length test
+    (nothing read) `idx < end_position ≤ len`, the current glyph is among the reads, and every in-buffer glyph read — the
+    skipped ones and the one that stopped the matcher, in the iterator as well as in the ligature-component rules — lies in
+    `[idx, end_position)` and carries UNSAFE_TO_CONCAT afterwards (`ConcatFlagged`: the old glyph with `mask |= CONCAT`).
+    Every font, rule, buffer; no monotonicity needed. -/
+theorem C04_contextI_fail_flags_inspected (recurse : Ctx → Nat → M (Ctx × Bool)) (c c' : Ctx) (n : Nat)
+    (fn : Nat → Nat → Bool) (lookups : List Rec)
+    (h : (matchInputI c n fn [0, 0, 0, 0] >>= contextFinish recurse c n lookups) = .ok (c', false))
+    (hidx : c.buf.idx < c.buf.len) (hlen : c.buf.len ≤ c.buf.info.length)
+    (hreq : c.buf.flags &&& Gen.Buf.produceUnsafeToConcat ≠ 0) :
+    ∃ (R : MatchInI),
+      matchInputI c n fn [0, 0, 0, 0] = .ok R ∧ R.r.ok = false ∧
+      c.buf.unsafeToConcat c.buf.idx (some R.r.endPos) = .ok c'.buf ∧ c' = { c with buf := c'.buf } ∧
+      (R.why ≠ .tooLong → c.buf.idx < R.r.endPos ∧ R.r.endPos ≤ c.buf.len ∧ Rd.inp c.buf.idx ∈ R.reads ∧
+        ∀ i, Rd.inp i ∈ R.reads → c.buf.idx ≤ i ∧ i < R.r.endPos ∧
+          ∃ x, c.buf.info[i]? = some x ∧ ConcatFlagged c'.buf.info i x) ∧
+      (R.why = .tooLong → R.reads = []) ∧
+      R.why ≠ .matched ∧ (∀ j, Rd.out j ∉ R.reads) ∧ (∀ j, Rd.lig j ∈ R.reads → j < c.buf.outLen) := by
+  cases hR : matchInputI c n fn [0, 0, 0, 0] with
+  | error e => simp only [hR, bind, Except.bind] at h; cases h
+  | ok R =>
+    simp only [hR, bind, Except.bind, contextFinish] at h
+    cases hok : R.r.ok with
+    | true =>
+      simp only [hok, if_true] at h
+      cases hb : c.buf.unsafeToBreak c.buf.idx (some R.r.endPos) with
+      | error e => simp [hb] at h
+      | ok b =>
+        simp only [hb] at h
+        cases hal : applyLookup recurse { c with buf := b } n R.r.positions R.r.endPos lookups with
+        | error e => simp [hal] at h
+        | ok c2 => simp [hal, pure, Except.pure] at h
+    | false =>
+      simp only [hok, Bool.false_eq_true, if_false] at h
+      cases hb : c.buf.unsafeToConcat c.buf.idx (some R.r.endPos) with
+      | error e => simp [hb] at h
+      | ok b =>
+        simp only [hb, pure, Except.pure, Except.ok.injEq, Prod.mk.injEq, and_true] at h
+        subst h
+        exact ⟨R, rfl, hok, hb, rfl, matchFail_flags c _ _ _ R b hR hok hb hidx hlen hreq⟩
+
+/-- **a context rule that declined flagged everything it inspected** (`apply_context`, Context formats 1 and 2): the instance
+    of `C04_contextI_fail_flags_inspected` for `applyContextRule`. -/
+theorem C04_context_fail_flags_inspected (recurse : Ctx → Nat → M (Ctx × Bool)) (c c' : Ctx) (input : List Nat)
+    (matchFn : Nat → Nat → Bool) (lookups : List Rec)
+    (h : applyContextRule recurse c input matchFn lookups = .ok (c', false))
+    (hidx : c.buf.idx < c.buf.len) (hlen : c.buf.len ≤ c.buf.info.length)
+    (hreq : c.buf.flags &&& Gen.Buf.produceUnsafeToConcat ≠ 0) :
+    ∃ (R : MatchInI),
+      matchInputI c input.length (fun g i => matchFn g (input.getD i 0)) [0, 0, 0, 0] = .ok R ∧ R.r.ok = false ∧
+      c.buf.unsafeToConcat c.buf.idx (some R.r.endPos) = .ok c'.buf ∧ c' = { c with buf := c'.buf } ∧
+      (R.why ≠ .tooLong → c.buf.idx < R.r.endPos ∧ R.r.endPos ≤ c.buf.len ∧ Rd.inp c.buf.idx ∈ R.reads ∧
+        ∀ i, Rd.inp i ∈ R.reads → c.buf.idx ≤ i ∧ i < R.r.endPos ∧
+          ∃ x, c.buf.info[i]? = some x ∧ ConcatFlagged c'.buf.info i x) ∧
+      (R.why = .tooLong → R.reads = []) ∧
+      R.why ≠ .matched ∧ (∀ j, Rd.out j ∉ R.reads) ∧ (∀ j, Rd.lig j ∈ R.reads → j < c.buf.outLen) := by
+  rw [applyContextRule_eq] at h
+  exact C04_contextI_fail_flags_inspected recurse c c' _ _ lookups h hidx hlen hreq
+
+/-- **a Context format 3 subtable that declined**: either the current glyph is not covered (nothing but the current glyph was
+    looked at, nothing changes: `c' = c`), or it is the instance of `C04_contextI_fail_flags_inspected` for the inline code of
+    format 3 (`C03_context3_instrumented_same`). -/
+theorem C04_context3_fail_flags_inspected (recurse : Ctx → Nat → M (Ctx × Bool)) (nf : Bool) (c c' : Ctx) (cov : Cov)
+    (restCovs : List Cov) (lookups : List Rec)
+    (h : applySubtable recurse nf c (.context3 (cov :: restCovs) lookups) = .ok (c', false))
+    (hidx : c.buf.idx < c.buf.len) (hlen : c.buf.len ≤ c.buf.info.length)
+    (hreq : c.buf.flags &&& Gen.Buf.produceUnsafeToConcat ≠ 0) :
+    (c' = c ∧ ∃ cur, c.buf.info[c.buf.idx]? = some cur ∧ cov.index (cur.gid % 65536) = none) ∨
+    ∃ (R : MatchInI),
+      matchInputI c restCovs.length (fun g i => nthCov restCovs i g) [0, 0, 0, 0] = .ok R ∧ R.r.ok = false ∧
+      c.buf.unsafeToConcat c.buf.idx (some R.r.endPos) = .ok c'.buf ∧ c' = { c with buf := c'.buf } ∧
+      (R.why ≠ .tooLong → c.buf.idx < R.r.endPos ∧ R.r.endPos ≤ c.buf.len ∧ Rd.inp c.buf.idx ∈ R.reads ∧
+        ∀ i, Rd.inp i ∈ R.reads → c.buf.idx ≤ i ∧ i < R.r.endPos ∧
+          ∃ x, c.buf.info[i]? = some x ∧ ConcatFlagged c'.buf.info i x) ∧
+      (R.why = .tooLong → R.reads = []) ∧
+      R.why ≠ .matched ∧ (∀ j, Rd.out j ∉ R.reads) ∧ (∀ j, Rd.lig j ∈ R.reads → j < c.buf.outLen) := by
+  rw [context3_eq] at h
+  cases hg : Mem.get c.buf.info c.buf.idx with
+  | error e => simp only [hg, bind, Except.bind] at h; cases h
+  | ok cur =>
+    simp only [hg, bind, Except.bind] at h
+    cases hc : cov.index (cur.gid % 65536) with
+    | none =>
+      simp only [hc, pure, Except.pure, Except.ok.injEq, Prod.mk.injEq, and_true] at h
+      exact Or.inl ⟨h.symm, cur, Mem.get_eq_ok hg, hc⟩
+    | some i =>
+      simp only [hc] at h
+      exact Or.inr (C04_contextI_fail_flags_inspected recurse c c' _ _ lookups h hidx hlen hreq)
+
+-- non-vacuity: the rule "1 (marks ignored) 3" on glyphs 5 | 1 mark 2 3 declines AT glyph 2 (index 3); reads = [1, 2, 3] =
+-- current glyph, skipped mark, stop glyph; all three get UNSAFE_TO_CONCAT
+example : (matchInputI spanCtx 1 (fun g i => g == [3].getD i 0) [0, 0, 0, 0]).map MatchInI.view
+    = .ok (false, 4, [.inp 1, .inp 2, .inp 3], .iter) := by rfl
+example : ∃ c', applyContextRule spanNoRecurse spanCtx [3] (fun g v => g == v) [] = .ok (c', false) ∧
+    c'.buf.info.map (·.mask) = [1, 3, 3, 3, 1] ∧
+    spanCtx.buf.idx < spanCtx.buf.len ∧ spanCtx.buf.len ≤ spanCtx.buf.info.length ∧
+    spanCtx.buf.flags &&& Gen.Buf.produceUnsafeToConcat ≠ 0 :=
+  ⟨_, rfl, rfl, by decide, by decide, by decide⟩
+example : ∃ c', applySubtable spanNoRecurse true spanCtx (.context3 [[1], [3]] []) = .ok (c', false) ∧
+    c'.buf.info.map (·.mask) = [1, 3, 3, 3, 1] := ⟨_, rfl, rfl⟩
+
+/-- **Ligature::apply, a ligature that declines** (`comps` non-empty): the same statement as for a context rule -/
+theorem C04_ligature_fail_flags_inspected (c c' : Ctx) (comps : List Nat) (lig : Nat) (hne : comps.isEmpty = false)
+    (h : ligatureRule c (comps, lig) = .ok (c', false))
+    (hidx : c.buf.idx < c.buf.len) (hlen : c.buf.len ≤ c.buf.info.length)
+    (hreq : c.buf.flags &&& Gen.Buf.produceUnsafeToConcat ≠ 0) :
+    ∃ (R : MatchInI),
+      matchInputI c comps.length (fun g i => g == comps.getD i 0) [0, 0, 0, 0] = .ok R ∧ R.r.ok = false ∧
+      c.buf.unsafeToConcat c.buf.idx (some R.r.endPos) = .ok c'.buf ∧ c' = { c with buf := c'.buf } ∧
+      (R.why ≠ .tooLong → c.buf.idx < R.r.endPos ∧ R.r.endPos ≤ c.buf.len ∧ Rd.inp c.buf.idx ∈ R.reads ∧
+        ∀ i, Rd.inp i ∈ R.reads → c.buf.idx ≤ i ∧ i < R.r.endPos ∧
+          ∃ x, c.buf.info[i]? = some x ∧ ConcatFlagged c'.buf.info i x) ∧
+      (R.why = .tooLong → R.reads = []) ∧
+      R.why ≠ .matched ∧ (∀ j, Rd.out j ∉ R.reads) ∧ (∀ j, Rd.lig j ∈ R.reads → j < c.buf.outLen) := by
+  rw [ligatureRule_eq c (comps, lig) hne] at h
+  cases hR : matchInputI c comps.length (fun g i => g == comps.getD i 0) [0, 0, 0, 0] with
+  | error e => simp only [hR, bind, Except.bind] at h; cases h
+  | ok R =>
+    simp only [hR, bind, Except.bind, ligatureFinish] at h
+    cases hok : R.r.ok with
+    | true =>
+      simp only [hok, Bool.not_true, Bool.false_eq_true, if_false] at h
+      cases hl : ligateInput c (comps.length + 1) R.r.positions R.r.endPos R.r.totalComps lig with
+      | error e => simp [hl] at h
+      | ok c2 => simp [hl, pure, Except.pure] at h
+    | false =>
+      simp only [hok, Bool.not_false, if_true] at h
+      cases hb : c.buf.unsafeToConcat c.buf.idx (some R.r.endPos) with
+      | error e => simp [hb] at h
+      | ok b =>
+        simp only [hb, pure, Except.pure, Except.ok.injEq, Prod.mk.injEq, and_true] at h
+        subst h
+        exact ⟨R, rfl, hok, hb, rfl, matchFail_flags c _ _ _ R b hR hok hb hidx hlen hreq⟩
+
+/-- **regression witness of the repaired ligature-component path** (was `known_C04_ligcomp_fail_unflagged`: `end_position` 0,
+    masks unchanged).  Buffer x, LIG, M₁, M₂ where LIG is a ligature made earlier in the same run (lig_id 1), M₁ a mark that
+    `ligate_input` attached to its first component (lig_id 1, lig_comp 1), M₂ the same mark glyph unattached; lookup flag
+    IgnoreLigatures, ligature "x M -> 99", PRODUCE_UNSAFE_TO_CONCAT requested.  The matcher reads x, steps over LIG, reaches M₁
+    and declines because M₁ belongs to another ligature — reads `[inp 0, inp 1, inp 2]` — and now reports `end_position` = 3:
+    x, LIG and M₁ carry UNSAFE_TO_CONCAT (mask 1 -> 3), M₂ does not.  With M₁ unattached (third conjunct) the very same rule
+    applies: the decision depended on glyph 2, which is flagged now.
+    On the crate (fontbuild recipe `flagslib.WITNESS_FONTS["ligcomp-concat"]`: 7 glyphs, cmap a b c d -> 1 2 3 4, GDEF classes
+    1:1 2:1 3:1 4:3 5:2 6:1, feature ccmp = [ligature flag 8 cov [2] comps [3] -> 5, ligature flag 4 cov [1] comps [4] -> 6];
+    text `abdcd`, request `shape W0 l Latn - 64 0 - - - 61:0,62:1,64:2,63:3,64:4`): before the repair the whole text gave
+    1 5 4 4 with NO glyph flag and the even text `61:0,64:4` of the redistribution gave the single glyph 6; after it the
+    clusters 0 and 1 carry UNSAFE_TO_CONCAT and the redistribution experiment passes (permanent case of
+    `concat-redistribution-synth`). -/
+theorem C04_ligcomp_fail_flagged :
+    (matchInputI (spanLigCtx (8 + 33 * 65536)) 1 (fun g i => g == [10].getD i 0) [0, 0, 0, 0]).map MatchInI.view
+      = .ok (false, 3, [.inp 0, .inp 1, .inp 2], .ligComp) ∧
+    (ligatureRule (spanLigCtx (8 + 33 * 65536)) ([10], 99)).map (fun r => (r.1.buf.info.map (·.mask), r.2))
+      = .ok ([3, 3, 3, 1], false) ∧
+    (ligatureRule (spanLigCtx 8) ([10], 99)).map (fun r => ((r.1.buf.outArr.take r.1.buf.outLen).map (·.gid), r.2))
+      = .ok ([99, 20], true) ∧
+    (spanLigCtx (8 + 33 * 65536)).buf.flags &&& Gen.Buf.produceUnsafeToConcat ≠ 0 :=
+  ⟨rfl, rfl, rfl, by decide⟩
+
+-- non-vacuity of C04_ligature_fail_flags_inspected, on its ligComp branch
+example : ∃ c', ligatureRule (spanLigCtx (8 + 33 * 65536)) ([10], 99) = .ok (c', false) ∧
+    (spanLigCtx (8 + 33 * 65536)).buf.idx < (spanLigCtx (8 + 33 * 65536)).buf.len ∧
+    (spanLigCtx (8 + 33 * 65536)).buf.len ≤ (spanLigCtx (8 + 33 * 65536)).buf.info.length :=
+  ⟨_, rfl, by decide, by decide⟩
+
+/-- **a chain rule that declined flagged everything it inspected** (`apply_chain_context`, ChainContext formats 1-3; forward
+    GSUB pass: `have_output`).  When the rule returns `(c', false)` the matching phase `chainMatchI` ended with one of three
+    verdicts:
+    * `inputFail` / `aheadFail`: the only effect is `unsafe_to_concat(idx, end_index)` with `end_index = max(end_position, idx)`
+      resp. the lookahead iterator's `unsafe_to`; every glyph read by match_input and match_lookahead lies in `[idx, end_index)`
+      and carries UNSAFE_TO_CONCAT afterwards (the ligature-component path of match_input included);
+    * `backFail`: the only effect is `unsafe_to_concat_from_outbuffer(start_index, end_index)`; every glyph read by match_input
+      and match_lookahead lies in `info[idx, end_index)`, every glyph read by match_backtrack in `out[start_index, out_len)`, and
+      all of them carry UNSAFE_TO_CONCAT afterwards (both output modes).
+    Every font, rule, well-formed buffer; no monotonicity needed. -/
+theorem C04_chain_fail_flags_inspected (recurse : Ctx → Nat → M (Ctx × Bool)) (c c' : Ctx) (nBack nIn nAhead : Nat)
+    (fBack fIn fAhead : Nat → Nat → Bool) (lookups : List Rec)
+    (h : applyChainRule recurse c nBack nIn nAhead fBack fIn fAhead lookups = .ok (c', false))
+    (hidx : c.buf.idx < c.buf.len) (hwf : Buf.WF c.buf) (hho : c.buf.haveOutput = true)
+    (hreq : c.buf.flags &&& Gen.Buf.produceUnsafeToConcat ≠ 0) :
+    ∃ (m : ChainM),
+      chainMatchI c nBack nIn nAhead fBack fIn fAhead = .ok m ∧ m.verdict ≠ .matched ∧ c' = { c with buf := c'.buf } ∧
+      c.buf.idx ≤ m.endIndex ∧ m.endIndex ≤ c.buf.len ∧
+      (m.verdict = .inputFail ∨ m.verdict = .aheadFail →
+        c.buf.unsafeToConcat c.buf.idx (some m.endIndex) = .ok c'.buf ∧
+        ∀ i, Rd.inp i ∈ m.reads → c.buf.idx ≤ i ∧ i < m.endIndex ∧
+          ∃ x, c.buf.info[i]? = some x ∧ ConcatFlagged c'.buf.info i x) ∧
+      (m.verdict = .backFail →
+        m.startIndex ≤ c.buf.outLen ∧
+        c.buf.unsafeToConcatFromOut m.startIndex (some m.endIndex) = .ok c'.buf ∧
+        (∀ i, Rd.inp i ∈ m.reads → c.buf.idx ≤ i ∧ i < m.endIndex ∧
+            ∃ x, c.buf.info[i]? = some x ∧ ConcatFlagged c'.buf.info i x) ∧
+        (∀ j, Rd.out j ∈ m.reads → m.startIndex ≤ j ∧ j < c.buf.outLen ∧
+            ∃ x, c.buf.outArr[j]? = some x ∧ ConcatFlagged c'.buf.outArr j x)) ∧
+      (∀ j, Rd.out j ∈ m.reads → m.verdict = .backFail) ∧
+      (∀ j, Rd.lig j ∈ m.reads → j < c.buf.outLen) := by
+  rw [applyChainRule_eq] at h
+  cases hm : chainMatchI c nBack nIn nAhead fBack fIn fAhead with
+  | error e => simp only [hm, bind, Except.bind] at h; cases h
+  | ok m =>
+    obtain ⟨s0, s1, s3, s4, s5, s6, s7⟩ := chainMatchI_span c _ _ _ _ _ _ m hm hidx
+    simp only [hm, bind, Except.bind, chainFinish] at h
+    have hbl : backtrackLen c.buf = c.buf.outLen := by simp [backtrackLen, hho]
+    have hlig : ∀ j, Rd.lig j ∈ m.reads → j < c.buf.outLen := by
+      intro j hj
+      rcases s7 _ hj with ⟨i', a1, _⟩ | ⟨j', a1, _⟩ | ⟨j', a1, a2⟩
+      · cases a1
+      · cases a1
+      · cases a1; exact a2
+    have hout : ∀ j, Rd.out j ∈ m.reads → m.verdict = .backFail ∨ m.verdict = .matched := by
+      intro j hj
+      rcases s7 _ hj with ⟨i', a1, _⟩ | ⟨j', a1, a2, _⟩ | ⟨j', a1, _⟩
+      · cases a1
+      · exact a2
+      · cases a1
+    have hreq' : ¬ (c.buf.flags &&& Gen.Buf.produceUnsafeToConcat == 0) = true := by simpa using hreq
+    cases hv : m.verdict with
+    | inputFail | aheadFail =>
+      simp only [hv] at h
+      cases hb : c.buf.unsafeToConcat c.buf.idx (some m.endIndex) with
+      | error e => simp [hb] at h
+      | ok b =>
+        simp only [hb, pure, Except.pure, Except.ok.injEq, Prod.mk.injEq, and_true] at h
+        subst h
+        obtain ⟨b', hb', hu, _⟩ := unsafeToConcat_span c.buf c.buf.idx m.endIndex hreq s3 s4 hwf.len_le
+        rw [hb] at hb'; cases hb'
+        refine ⟨m, rfl, by simp [hv], rfl, s3, s4, fun _ => ⟨hb, ?_⟩, fun hvv => ?_, fun j hj => ?_, hlig⟩
+        · intro i hi
+          rcases s7 _ hi with ⟨i', a1, a2, a3, a4⟩ | ⟨j, a1, _⟩ | ⟨j, a1, _⟩
+          · cases a1
+            have hil : i < c.buf.info.length := by have := hwf.len_le; omega
+            exact ⟨a2, a4, _, List.getElem?_eq_getElem hil, ConcatFlagged.of_upd hu (List.getElem?_eq_getElem hil) a2 a4⟩
+          · cases a1
+          · cases a1
+        · rw [hv] at hvv; cases hvv
+        · have := hout j hj; rw [hv] at this; rcases this with t | t <;> cases t
+    | backFail =>
+      simp only [hv] at h
+      have hst : m.startIndex ≤ c.buf.outLen := by rw [← hbl]; exact s6 (Or.inl hv)
+      obtain ⟨b', o1, hb', U1, U2, hout', hbb⟩ :=
+        setGlyphFlags_plain_out c.buf Flag.UNSAFE_TO_CONCAT m.startIndex m.endIndex hho hst hwf.out_cap s3 s4 hwf.len_le
+      have hcall : c.buf.unsafeToConcatFromOut m.startIndex (some m.endIndex) = .ok b' := by
+        unfold Buf.unsafeToConcatFromOut
+        rw [if_neg hreq', hb']
+      have hsep : b'.sepOut = c.buf.sepOut := by rw [hbb]
+      obtain ⟨t1, t2⟩ := twoSided_at U1 U2 hout' hsep hwf.nosep_ok
+      simp only [hcall, pure, Except.pure, Except.ok.injEq, Prod.mk.injEq, and_true] at h
+      subst h
+      refine ⟨m, rfl, by simp [hv], rfl, s3, s4, fun hvv => ?_, fun _ => ⟨hst, hcall, ?_, ?_⟩, fun _ _ => hv, hlig⟩
+      · rw [hv] at hvv; rcases hvv with hvv | hvv <;> cases hvv
+      · intro i hi
+        rcases s7 _ hi with ⟨i', a1, a2, a3, a4⟩ | ⟨j, a1, _⟩ | ⟨j, a1, _⟩
+        · cases a1
+          have hil : i < c.buf.info.length := by have := hwf.len_le; omega
+          exact ⟨a2, a4, _, List.getElem?_eq_getElem hil,
+            ConcatFlagged.of_eq (t1 i _ a2 a4 (List.getElem?_eq_getElem hil))⟩
+        · cases a1
+        · cases a1
+      · intro j hj
+        rcases s7 _ hj with ⟨i', a1, _⟩ | ⟨j', a1, _, a3, a4⟩ | ⟨j', a1, _⟩
+        · cases a1
+        · cases a1
+          rw [hbl] at a4
+          have hjl : j < c.buf.outArr.length := by have := hwf.out_cap; omega
+          exact ⟨a3, a4, _, List.getElem?_eq_getElem hjl,
+            ConcatFlagged.of_eq (t2 j _ a3 a4 (List.getElem?_eq_getElem hjl))⟩
+        · cases a1
+    | matched =>
+      simp only [hv] at h
+      cases hb : c.buf.unsafeToBreakFromOut m.startIndex (some m.endIndex) with
+      | error e => simp [hb] at h
+      | ok b =>
+        simp only [hb] at h
+        cases hal : applyLookup recurse { c with buf := b } nIn m.R.r.positions m.R.r.endPos lookups with
+        | error e => simp [hal] at h
+        | ok c2 => simp [hal, pure, Except.pure] at h
+
+-- non-vacuity: backtrack mismatch (9 wanted, 5 found): verdict backFail, span out[0, 1) ++ info[1, 5), reads = input
+-- [1, 2, 3] + lookahead [4] + backtrack out[0] (the glyph that made it fail); the whole buffer gets UNSAFE_TO_CONCAT
+example : (chainMatchI spanCtx 1 1 1 (fun g _ => g == 9) (fun g _ => g == 2) (fun g _ => g == 3)).map ChainM.view
+    = .ok (.backFail, 0, 5, [.inp 1, .inp 2, .inp 3, .inp 4, .out 0]) := by rfl
+-- lookahead mismatch: reads = input [1, 2, 3] + the lookahead glyph that made it fail [4]
+example : (chainMatchI spanCtx 1 1 1 (fun g _ => g == 5) (fun g _ => g == 2) (fun g _ => g == 9)).map ChainM.view
+    = .ok (.aheadFail, 0, 5, [.inp 1, .inp 2, .inp 3, .inp 4]) := by rfl
+example : ∃ c', applyChainRule spanNoRecurse spanCtx 1 1 1 (fun g _ => g == 9) (fun g _ => g == 2) (fun g _ => g == 3) []
+      = .ok (c', false) ∧ c'.buf.info.map (·.mask) = [3, 3, 3, 3, 3] ∧
+    spanCtx.buf.idx < spanCtx.buf.len ∧ Buf.WF spanCtx.buf ∧ spanCtx.buf.haveOutput = true ∧
+    spanCtx.buf.flags &&& Gen.Buf.produceUnsafeToConcat ≠ 0 :=
+  ⟨_, rfl, rfl, by decide, ⟨by decide, by decide, by simp [spanCtx], by decide⟩, rfl, by decide⟩
+
+end RbModel.Flags
+
+/-! ### the reverse-chaining subtable that declines -/
+namespace RbModel.Flags
+open RbModel RbModel.Gsub
+
+/-- **a reverse-chaining substitution that declined flagged what it inspected** (ReverseChainSingleSubst::apply after the
+    coverage test, no out-buffer as for every reverse lookup; `reverseRule_eq` / `C03_ligature_reverse_instrumented_same` is the
+    equation with the subtable).  When it returns `(c', false)` the only effect is
+    `unsafe_to_concat_from_outbuffer(start_index, end_index)`: on a backtrack failure `start_index` is the backward iterator's
+    `unsafe_from` and `end_index = idx + 1` (the lookahead is not run); on a lookahead failure `end_index` is the forward
+    iterator's `unsafe_to`.  Every glyph read — current glyph, backtrack glyphs `[start_index, idx)`, lookahead glyphs
+    `(idx, end_index)`, the skipped ones and the one that made it fail — carries UNSAFE_TO_CONCAT afterwards.
+    No ligature-component path exists here (match_input is not used).  Every font, subtable, buffer. -/
+theorem C04_reverse_fail_flags_inspected (c c' : Ctx) (back ahead : List Cov) (s : Nat)
+    (h : (revMatchI c back ahead >>= revFinish c s) = .ok (c', false))
+    (hidx : c.buf.idx < c.buf.len) (hlen : c.buf.len ≤ c.buf.info.length) (hho : c.buf.haveOutput = false)
+    (hso : c.buf.sepOut = false)
+    (hreq : c.buf.flags &&& Gen.Buf.produceUnsafeToConcat ≠ 0) :
+    ∃ (st e : Nat) (rs : List Rd),
+      revMatchI c back ahead = .ok (false, st, e, rs) ∧ c.buf.outArr = c.buf.info ∧ st ≤ c.buf.idx ∧ c.buf.idx < e ∧ e ≤ c.buf.len ∧
+      c.buf.unsafeToConcatFromOut st (some e) = .ok c'.buf ∧ c' = { c with buf := c'.buf } ∧
+      ∀ x ∈ rs, RevRead c st e (fun i y => ConcatFlagged c'.buf.info i y) x := by
+  cases hm : revMatchI c back ahead with
+  | error er => simp only [hm, bind, Except.bind] at h; cases h
+  | ok v =>
+    obtain ⟨ok, st, e, rs⟩ := v
+    obtain ⟨s1, s2, s3, s4⟩ := revMatchI_span c back ahead ok st e rs hm hidx
+    have hbl : backtrackLen c.buf = c.buf.idx := by simp [backtrackLen, hho]
+    rw [hbl] at s1 s4
+    simp only [hm, bind, Except.bind, revFinish] at h
+    cases ok with
+    | true =>
+      simp only [if_true] at h
+      cases hb : c.buf.unsafeToBreakFromOut st (some e) with
+      | error er => simp [hb] at h
+      | ok b =>
+        simp only [hb] at h
+        cases h1 : setGlyphClass { c with buf := b } s 0 false false with
+        | error er => simp [h1] at h
+        | ok c1 =>
+          simp only [h1] at h
+          cases h2 : Mem.get c1.buf.info c1.buf.idx with
+          | error er => simp [h2] at h
+          | ok cur =>
+            simp only [h2] at h
+            cases h3 : Mem.put c1.buf.info c1.buf.idx { cur with gid := s } with
+            | error er => simp [h3] at h
+            | ok inf => simp [h3, pure, Except.pure] at h
+    | false =>
+      obtain ⟨b', hb', hu, _⟩ := unsafeToConcat_span c.buf st e hreq (by omega) s3 hlen
+      have hcall : c.buf.unsafeToConcatFromOut st (some e) = .ok b' := by
+        have hreq' : ¬ (c.buf.flags &&& Gen.Buf.produceUnsafeToConcat == 0) = true := by simpa using hreq
+        unfold Buf.unsafeToConcatFromOut
+        rw [if_neg hreq', setGlyphFlags_plain_noOutput _ _ _ _ hho]
+        unfold Buf.unsafeToConcat at hb'
+        rw [if_neg hreq'] at hb'
+        exact hb'
+      simp only [Bool.false_eq_true, if_false, hcall, pure, Except.pure, Except.ok.injEq, Prod.mk.injEq, and_true] at h
+      subst h
+      refine ⟨st, e, rs, rfl, by simp [Buf.outArr, hso], s1, s2, s3, hcall, rfl, ?_⟩
+      intro x hx
+      rcases s4 x hx with ⟨i, a1, a2, a3⟩ | ⟨j, a1, a2, a3⟩
+      · have hil : i < c.buf.info.length := by omega
+        exact Or.inl ⟨i, _, a1, a2, a3, List.getElem?_eq_getElem hil,
+          ConcatFlagged.of_upd hu (List.getElem?_eq_getElem hil) (by omega) a3⟩
+      · have hjl : j < c.buf.info.length := by omega
+        exact Or.inr ⟨j, _, a1, a2, a3, List.getElem?_eq_getElem hjl,
+          ConcatFlagged.of_upd hu (List.getElem?_eq_getElem hjl) a2 (by omega)⟩
+
+-- non-vacuity: the backtrack wants 9 and finds 5 (after stepping over the mark): reads = current glyph, out[1] (skipped mark),
+-- out[0] (the glyph that made it fail); span [0, 3)
+example : revMatchI spanRevCtx [[9]] [[3]] = .ok (false, 0, 3, [.inp 2, .out 1, .out 0]) := by rfl
+example : ∃ c', (revMatchI spanRevCtx [[9]] [[3]] >>= revFinish spanRevCtx 7) = .ok (c', false) ∧
+    c'.buf.info.map (·.mask) = [3, 3, 3, 1, 1] ∧
+    spanRevCtx.buf.idx < spanRevCtx.buf.len ∧ spanRevCtx.buf.len ≤ spanRevCtx.buf.info.length ∧ spanRevCtx.buf.haveOutput = false ∧
+    spanRevCtx.buf.sepOut = false ∧ spanRevCtx.buf.flags &&& Gen.Buf.produceUnsafeToConcat ≠ 0 :=
+  ⟨_, rfl, rfl, by decide, by decide, rfl, rfl, by decide⟩
 
 end RbModel.Flags
